@@ -105,7 +105,7 @@ def history_case(seed):
         directed = tagging and "MAJOR" in pattern and rng.random() < 0.5
         nsteps = rng.randint(3, 6) if directed else rng.randint(1, 6)
         for step in range(nsteps):
-            kind = rng.choice(["update", "update", "update", "fail", "unrelated", "notag"])
+            kind = rng.choice(["update", "update", "update", "fail", "unrelated", "notag", "dirty"])
             if directed and step in (0, 2):
                 kind = "update"  # a tag at x.9.z first; after the untagged carry a plain update
             if directed and step == 1:
@@ -129,6 +129,10 @@ def history_case(seed):
                 flags = ["--set-version", "0.0.1" if "MAJOR" in pattern and not pattern.startswith("v") else "v0.0.1" if pattern.startswith("v") else "2001.1001"]
             if kind == "notag":
                 flags = flags + ["--no-tag-commit"]
+            if kind == "dirty":
+                # an unrelated tracked file has unstaged edits and the user allows that: it must stay out of the bump commit
+                open(os.path.join(d, "other.txt"), "a").write(f"local edit {step}\n")
+                flags = flags + ["--allow-dirty"]
             rc, out, err = _bumpver(d, "update", "--no-fetch", *flags)
             head_after = _git(d, "rev-parse", "HEAD").strip()
             if kind == "fail":
@@ -161,7 +165,12 @@ def history_case(seed):
             changed = sorted(x for x in _git(d, "show", "--name-only", "--format=", "HEAD").split("\n") if x)
             if changed != configured:
                 return f"step {step}: commit contains {changed}, expected {configured}"
-            if _git(d, "status", "--porcelain").strip():
+            left = _git(d, "status", "--porcelain").rstrip("\n")
+            if kind == "dirty":
+                if left != " M other.txt":
+                    return f"step {step}: after update --allow-dirty the unrelated local edit is no longer an unstaged change (git status: {left!r})"
+                _git(d, "checkout", "--", "other.txt")
+            elif left.strip():
                 return f"step {step}: working tree not clean after update"
             tags_here = _git(d, "tag", "--points-at", "HEAD").split()
             if tagging and kind != "notag":
